@@ -2,6 +2,7 @@
 mod c06;
 mod c07;
 mod c11;
+mod c15h;
 mod c18;
 mod plainwire;
 mod script;
@@ -15,6 +16,7 @@ fn main() {
         "C06" => c06::run(&args),
         "C07" => c07::run(&args),
         "C12" => plainwire::run_c12(&args),
+        "C15" => c15h::run(&args),
         "C16" => plainwire::run_c16(&args),
         "C11" => c11::run(&args),
         "C18" => c18::run(&args),
